@@ -311,18 +311,21 @@ Proof.
   split; [exact L|]. intros h' I. apply P. destruct I; auto. right; right; auto.
 Qed.
 
-Lemma R5_timer_fire extc s c : R5 extc s -> R5 extc (timer_fire s c).
+Lemma R5_timer_fire fx extc s c : R5 extc s -> R5 extc (timer_fire fx s c).
 Proof.
   intros H. unfold timer_fire.
+  destruct (fx && _); [apply R5_close_timer; exact H|].
   eapply R5_same; [| | |apply (R5_upd_c_inert extc s c (fun x => c_set_inflight true (c_set_start (now s) (c_set_timer TIdle x))))];
     try reflexivity; auto.
 Qed.
 
-Lemma R5_run_timers extc s : R5 extc s -> R5 extc (run_timers s).
+Lemma R5_run_timers fx extc beh s cnt : R5 extc s -> R5 extc (fst (fst (run_timers fx beh s cnt))).
 Proof.
-  unfold run_timers. generalize (due_from 0 (cs s) (now s)). intros l. revert s.
-  induction l as [|k l IH]; intros s H; cbn [fold_left]; auto.
-  apply IH. apply R5_timer_fire; auto.
+  apply (run_timers_inv (R5 extc)).
+  - intros s0 c H. apply R5_upd_c_inert; auto.
+  - intros s0 l H. eapply R5_same; [| | |exact H]; reflexivity.
+  - intros s0 c H. apply R5_timer_fire; auto.
+  - intros s0 os H. apply R5_apis; auto.
 Qed.
 
 (* ---------------- the events ---------------- *)
@@ -372,6 +375,17 @@ Proof.
   specialize (IH s1 beh n1). destruct (work_done fx l s1 beh n1) as [[s2 e2] n2].
   cbn [fst snd] in *. apply Forall_app. auto.
 Qed.
+
+Lemma fire_ready_ok fx beh l : forall s cnt, Forall okev (snd (fst (fire_ready fx beh l s cnt))).
+Proof.
+  induction l as [|[c|id] l IH]; intros s cnt; cbn [fire_ready]; [constructor|apply IH|].
+  pose proof (apis_ok (beh cnt) s) as X. destruct (apis s (beh cnt)) as [s1 e1].
+  specialize (IH s1 (S cnt)). destruct (fire_ready fx beh l s1 (S cnt)) as [[s2 e2] n2].
+  cbn [fst snd] in *. constructor; [exact I|]. apply Forall_app. auto.
+Qed.
+
+Lemma run_timers_ok fx beh s cnt : Forall okev (snd (fst (run_timers fx beh s cnt))).
+Proof. unfold run_timers. apply fire_ready_ok. Qed.
 
 (* a handle that is in the closing list has no allocated context *)
 Lemma live_of_zero q s h : R5 (CHandle h :: q) s -> live_of s h = 0%nat.
@@ -435,8 +449,11 @@ Proof.
   { destruct X5 as [L P]. split; [exact L|]. intros h [[]|I]. apply (P h). left. exact I. }
   pose proof (run_closing_ok [] (closingq s1) _ beh n1 H1 H51) as [Y5 YO].
   destruct (run_closing (closingq s1) (set_closingq s1 []) beh n1) as [[s2 e2] n2]. cbn [fst snd] in *.
-  split; [|apply Forall_app; auto].
-  apply R5_run_timers. eapply R5_same; [| | |exact Y5]; reflexivity.
+  assert (H52 : R5 [] (set_now s2 (clock s2))) by (eapply R5_same; [| | |exact Y5]; reflexivity).
+  pose proof (R5_run_timers true [] beh _ n2 H52) as Z5.
+  pose proof (run_timers_ok true beh (set_now s2 (clock s2)) n2) as ZO.
+  destruct (run_timers true beh (set_now s2 (clock s2)) n2) as [[s3 e3] n3]. cbn [fst snd] in *.
+  split; [exact Z5|]. apply Forall_app. split; auto. apply Forall_app. auto.
 Qed.
 
 Lemma drain_ok fuel : forall s res beh cnt,
@@ -498,9 +515,17 @@ Proof.
     destruct (iteration true s beh cnt) as [[s1 e1] n1]. cbn [fst snd] in *.
     pose proof (IH s1 beh n1 X X5) as Y. destruct (run true s1 os beh n1) as [s2 e2].
     cbn [snd] in *. constructor; [exact I|]. apply Forall_app; auto.
-  - pose proof (R_drain drain_fuel s res beh cnt H) as X.
-    pose proof (drain_ok drain_fuel s res beh cnt H H5) as [X5 XO].
-    destruct (drain true drain_fuel s res beh cnt) as [[s1 e1] n1]. cbn [fst snd] in *.
+  - apply IH.
+    + destruct H as [S H]. split; [eapply SI_same; [| |exact S]; reflexivity|].
+      eapply R4_same; [| | | | |exact H]; reflexivity.
+    + eapply R5_same; [| | |exact H5]; reflexivity.
+  - assert (H' : R [] [] None (set_ut s [])).
+    { destruct H as [S H]. split; [eapply SI_same; [| |exact S]; reflexivity|].
+      eapply R4_same; [| | | | |exact H]; reflexivity. }
+    assert (H5' : R5 [] (set_ut s [])) by (eapply R5_same; [| | |exact H5]; reflexivity).
+    pose proof (R_drain drain_fuel _ res beh cnt H') as X.
+    pose proof (drain_ok drain_fuel _ res beh cnt H' H5') as [X5 XO].
+    destruct (drain true drain_fuel (set_ut s []) res beh cnt) as [[s1 e1] n1]. cbn [fst snd] in *.
     pose proof (IH s1 beh n1 X X5) as Y. destruct (run true s1 os beh n1) as [s2 e2].
     cbn [snd] in *. apply Forall_app. split; auto. constructor; [exact I|auto].
 Qed.
